@@ -431,7 +431,9 @@ def check(tier: str) -> Report:
                     f"pde/backends/numba/operators/common.py::{name}::axes={n_axes}",
                     f"`{name}` on a {n_axes}-axes grid is not an order-{order} approximation of d^{deriv}/d{name}: {d}",
                 )
+    near_axis(rep, ix)
     rep.assumptions += [
+        "near-axis regime: fields are generic polynomials (degree 6 in r, 3 in z) smooth in Cartesian coordinates; virtual points at the axis hold the analytic continuation (parity) of the field",
         "spectral (FFT) Laplacians are not stencils and are out of scope",
         "numba compiles the interpreted Python semantics faithfully; float round-off ignored",
         "cell centres at lo + (i+1/2) h (checked against discretize_interval by C12)",
@@ -442,3 +444,162 @@ def check(tier: str) -> Report:
 
 def _fmt(options: dict) -> str:
     return ",".join(f"{k}={v}" for k, v in sorted(options.items())) or "default"
+
+
+# =============================================================================
+# near-axis regime (r_min = 0): uniform second order in the cells adjoining the axis
+# =============================================================================
+NEAR_AXIS_EXCEPTIONS = {
+    # documented in the property statement: first order in the cells adjoining the axis
+    ("CylindricalSymGrid", "vector_laplace"): 1,
+}
+
+
+def _poly(name, r, z, K=3, M=0):
+    tot = 0
+    for k in range(K + 1):
+        for m in range(M + 1):
+            tot += sp.Symbol(f"{name}_{k}{m}") * r ** (2 * k) * (z**m if z is not None else 1)
+    return tot
+
+
+def smooth_fields(sysname, rank):
+    """components (in operator order) of a generic smooth, axially symmetric field, as polynomials
+    in r^2 (and z) with the regularity conditions implied by smoothness in Cartesian coordinates"""
+    r = sp.Symbol("r", positive=True)
+    z = sp.Symbol("z", real=True) if sysname == "cylindrical" else None
+    M = 3 if sysname == "cylindrical" else 0
+    P = lambda n: _poly(n, r, z, 3, M)  # noqa: E731
+    dim = {"polar": 2, "spherical": 3, "cylindrical": 3}[sysname]
+    if rank == 0:
+        return {(): P("s")}
+    if rank == 1:
+        if sysname == "polar":
+            return {(0,): r * P("f"), (1,): r * P("g")}
+        if sysname == "spherical":
+            return {(0,): r * P("f"), (1,): sp.Integer(0), (2,): sp.Integer(0)}
+        return {(0,): r * P("f"), (1,): P("w"), (2,): r * P("g")}
+    out = {(a, b): sp.Integer(0) for a in range(dim) for b in range(dim)}
+    A, B, C, D, E, F = (P(n) for n in "ABCDEF")
+    if sysname == "polar":
+        out[(0, 0)], out[(1, 1)] = A + r**2 * B, A + r**2 * C
+        out[(0, 1)], out[(1, 0)] = -D + r**2 * E, D + r**2 * F
+    elif sysname == "spherical":
+        out[(0, 0)] = A + r**2 * B
+        out[(1, 1)] = out[(2, 2)] = A + r**2 * C
+    else:  # cylindrical, component order (r, z, phi)
+        out[(0, 0)], out[(2, 2)] = A + r**2 * B, A + r**2 * C
+        out[(0, 2)], out[(2, 0)] = -D + r**2 * E, D + r**2 * F
+        out[(1, 1)] = P("G")
+        out[(0, 1)], out[(1, 0)] = r * P("H"), r * P("I")
+        out[(2, 1)], out[(1, 2)] = r * P("J"), r * P("K")
+    return out
+
+
+def _near_axis_job(job):
+    gcls, name, options = job
+    ix = get_index()
+    cfg = read_config_defaults(ix)
+    reg = [r for r in registrations(ix, "NumbaBackend", "pde/backends/numba/operators/") if r.grid_cls == gcls and r.name == name][0]
+    sysname, axes_list = GRIDS[gcls]
+    n_axes = axes_list[0]
+    grid = make_grid_model(ix, gcls, n_axes)
+    # the axis is part of the grid: r_min = 0
+    from ..fx import IdxArr
+
+    K = IdxArr.K
+    h = grid._attrs["discretization"].items
+    N0 = grid._attrs["shape"][0]
+    grid._attrs["axes_coords"] = (IdxArr((K + sp.Rational(1, 2)) * h[0], N0),) + tuple(grid._attrs["axes_coords"][1:])
+    grid._attrs["axes_bounds"] = ((sp.Integer(0), N0 * h[0]),) + tuple(grid._attrs["axes_bounds"][1:])
+    try:
+        it, closure = run_factory(ix, reg.factory, grid, options, cfg)
+        k = apply_kernel(it, closure, grid, factory=reg.factory.ref, options=options)
+    except (Unsupported, RaisedInCode) as e:
+        return {"job": job, "error": str(e)}
+    from sympy.core.function import AppliedUndef
+
+    from ..stencil import cell_offsets
+
+    table = kernel_table(k, n_axes)
+    orc = get_oracle(sysname, 0)
+    fields = smooth_fields(sysname, reg.rank_in)
+    r, z = sp.Symbol("r", positive=True), sp.Symbol("z", real=True)
+    isym = table.loop_syms[0]
+    Z = sp.Symbol("Z", real=True)
+    # continuum value for the explicit field
+    want = oracle_op(sysname, 0, name)
+    fsub = {}
+    for comp, f in orc.field(reg.rank_in).items():
+        fsub[f] = fields[comp]
+    results = []
+    for comp, term in table.comps.items():
+        st = sp.sympify(term)
+        repl = {}
+        for c in st.atoms(AppliedUndef):
+            if c.func.__name__ != "arr":
+                continue
+            cc, offs = cell_offsets(c, table.loop_syms)
+            val = fields[cc].subs(r, (isym + offs[0] - sp.Rational(1, 2)) * h[0])
+            if n_axes == 2:
+                val = val.subs(z, Z + offs[1] * h[1])
+            repl[c] = val
+        st = st.xreplace(repl)
+        if n_axes == 2:
+            # coefficients of the kernels do not depend on the axial index
+            st = st.subs(table.loop_syms[1], sp.Symbol("j_any"))
+        exact = sp.sympify(want[comp]).subs(fsub).doit()
+        exact = exact.subs(r, (isym - sp.Rational(1, 2)) * h[0])
+        if n_axes == 2:
+            exact = exact.subs(z, Z)
+        res = sp.together(sp.expand(st - exact))
+        res = res.subs({hh: EPS * sp.Symbol(f"eta{n}", positive=True) for n, hh in enumerate(h)})
+        res = sp.expand(sp.simplify(res))
+        # valuation in eps of every coefficient (with the cell index symbolic)
+        coeffsyms = sorted([s for s in res.free_symbols if "_" in s.name and s.name.split("_")[0] in "sfgwABCDEFGHIJK"], key=str)
+        best = sp.oo
+        lead = None
+        if res != 0:
+            P = sp.Poly(res, *coeffsyms) if coeffsyms else None
+            items = zip(P.monoms(), P.coeffs()) if P is not None else [((), res)]
+            from ..stencil import valuation
+
+            for mono, co in items:
+                v = valuation(co)
+                if v < best:
+                    best, lead = v, (str(dict(zip([str(c) for c in coeffsyms], mono))) if coeffsyms else "", str(sp.factor(co))[:200])
+        results.append((comp, str(best), lead))
+    return {"job": job, "factory": reg.factory.ref, "results": results, "kernel_funcs": sorted({s.func for s in k.stores if s.base == "out"})}
+
+
+def near_axis(rep: Report, ix):
+    jobs = []
+    for r in registrations(ix, "NumbaBackend", "pde/backends/numba/operators/"):
+        if r.grid_cls not in ("PolarSymGrid", "SphericalSymGrid", "CylindricalSymGrid"):
+            continue
+        for options in option_rows(r.factory):
+            if options.get("method", "central") != "central" or options.get("central", True) is not True:
+                continue  # the uniform claim is made for the central variants
+            jobs.append((r.grid_cls, r.name, options))
+    with mp.get_context("fork").Pool(min(16, os.cpu_count() or 1)) as pool:
+        results = pool.map(_near_axis_job, jobs, chunksize=1)
+    for res in results:
+        gcls, name, options = res["job"]
+        tag = f"near-axis:{gcls}:{name}:{_fmt(options)}"
+        if "error" in res:
+            raise AnalysisError(f"{tag}: {res['error']}")
+        rep.saw("near-axis rows", tag)
+        need = NEAR_AXIS_EXCEPTIONS.get((gcls, name), 2)
+        kf = "+".join(res["kernel_funcs"]) or res["factory"]
+        for comp, val, lead in res["results"]:
+            v = sp.oo if val == "oo" else sp.Integer(val)
+            ok = v >= need
+            if ok:
+                rep.oblige(f"{tag}:out{list(comp)}: error O(h^{need}) with the cell index symbolic (cells adjoining the axis included)", ok, {"valuation": val, "leading": lead})
+            if not ok:
+                rep.violation(
+                    "C01.near-axis",
+                    f"{kf}::{name}::{_fmt(options)}::near-axis::out{list(comp)}",
+                    f"{gcls} `{name}` {options}: on smooth axially symmetric fields (r_min = 0) the error in component {list(comp)} at cell i is O(h^{val}) "
+                    f"with i symbolic (leading term {lead}); the property requires order {need} uniformly down to the axis",
+                )
